@@ -390,8 +390,8 @@ func c08Shapes(r *Run, m *ServerModel) {
 		pn := fi.Decl.Type.Params.List[0].Names[0].Name
 		marks := false
 		ast.Inspect(fi.Decl.Body, func(n ast.Node) bool {
-			if c, ok := n.(*ast.CallExpr); ok && calleeKey(info, c) == "sync/atomic.StoreUint32" && len(c.Args) == 2 {
-				if v, ok := constInt(info, c.Args[1]); ok && v != 0 && res.str(c.Args[0]) == "&"+pn+".deleted" {
+			if c, ok := n.(*ast.CallExpr); ok {
+				if x, isOp := deletedFlagOp(r.L, info, res, c, true, 0); isOp && x == pn {
 					marks = true
 				}
 			}
@@ -422,8 +422,10 @@ func c08Shapes(r *Run, m *ServerModel) {
 		res := m.resolver(fi)
 		recv := fi.Decl.Recv.List[0].Names[0].Name
 		ast.Inspect(fi.Decl.Body, func(n ast.Node) bool {
-			if c, ok := n.(*ast.CallExpr); ok && calleeKey(info, c) == "sync/atomic.LoadUint32" && res.str(c.Args[0]) == "&"+recv+".pathNode.deleted" {
-				okRead = true
+			if c, ok := n.(*ast.CallExpr); ok {
+				if x, isOp := deletedFlagOp(r.L, info, res, c, false, 0); isOp && x == recv+".pathNode" {
+					okRead = true
+				}
 			}
 			return true
 		})
@@ -796,4 +798,68 @@ func c08Registration(r *Run, m *ServerModel) {
 	}
 	r.floor("r6", "reference literals with a parent", n, 3)
 	_ = sort.Strings
+}
+
+// deletedFlagOp: call stores a non-zero value into (store) or loads (otherwise) the deleted
+// flag of a path node, atomically: atomic.StoreUint32(&X.deleted, 1) / atomic.LoadUint32(
+// &X.deleted), the typed form X.deleted.Store(...) / X.deleted.Load(), or a private method of
+// the node that the pinned tree does not have and that does exactly that on its receiver
+// (pn.markDeleted(), f.pathNode.isDeleted()).  X is returned as rendered by res.
+func deletedFlagOp(l *Loaded, info *types.Info, res *resolver, c *ast.CallExpr, store bool, depth int) (string, bool) {
+	k := calleeKey(info, c)
+	switch {
+	case store && k == "sync/atomic.StoreUint32" && len(c.Args) == 2:
+		if v, ok := constInt(info, c.Args[1]); ok && v != 0 {
+			if t := res.str(c.Args[0]); strings.HasPrefix(t, "&") && strings.HasSuffix(t, ".deleted") {
+				return strings.TrimSuffix(strings.TrimPrefix(t, "&"), ".deleted"), true
+			}
+		}
+		return "", false
+	case !store && k == "sync/atomic.LoadUint32" && len(c.Args) == 1:
+		if t := res.str(c.Args[0]); strings.HasPrefix(t, "&") && strings.HasSuffix(t, ".deleted") {
+			return strings.TrimSuffix(strings.TrimPrefix(t, "&"), ".deleted"), true
+		}
+		return "", false
+	}
+	sel, ok := unparen(c.Fun).(*ast.SelectorExpr)
+	if !ok {
+		return "", false
+	}
+	// typed atomic field
+	if strings.HasPrefix(k, "sync/atomic.") && (store && sel.Sel.Name == "Store" || !store && sel.Sel.Name == "Load") {
+		if t := res.str(sel.X); strings.HasSuffix(t, ".deleted") {
+			if store && len(c.Args) == 1 {
+				if v, isC := constInt(info, c.Args[0]); isC && v == 0 {
+					return "", false
+				}
+				if tv := constValue(info, c.Args[0]); tv != nil && tv.String() == "false" {
+					return "", false
+				}
+			}
+			return strings.TrimSuffix(t, ".deleted"), true
+		}
+		return "", false
+	}
+	// a new private method of the node
+	tf := l.FuncOf(callee(info, c))
+	if depth > 0 || tf == nil || tf.Decl.Body == nil || tf.Decl.Recv == nil || len(tf.Decl.Recv.List[0].Names) != 1 || tf.Obj.Exported() || pinnedFuncs[tf.Key] || len(c.Args) != 0 {
+		return "", false
+	}
+	rn := tf.Decl.Recv.List[0].Names[0].Name
+	tres := newResolver(l, info, tf.Decl)
+	found, other := false, 0
+	ast.Inspect(tf.Decl.Body, func(n ast.Node) bool {
+		if cc, isCall := n.(*ast.CallExpr); isCall {
+			if x, isOp := deletedFlagOp(l, info, tres, cc, store, depth+1); isOp && x == rn {
+				found = true
+			} else if store {
+				other++ // a marking helper does nothing else
+			}
+		}
+		return true
+	})
+	if !found || store && other > 0 {
+		return "", false
+	}
+	return res.str(sel.X), true
 }
